@@ -240,7 +240,19 @@ def site_dense(tn, kind, sites):
 
 
 def rand_gate(rng, gdims, cplx, form):
+    """non-unitary gate as matrix or tensor; 'product' (A (x) B, rank 1 across the two sites) and 'swapprod'
+    (SWAP . (A (x) B), rank 1 across the swapped partition) exercise the branches of 'auto-split-gate'"""
     D = int(np.prod(gdims, dtype=int))
+    if form in ("product", "swapprod") and len(gdims) == 2:
+        d1, d2 = gdims
+        if form == "swapprod" and d1 == d2:
+            A, B = _rand(rng, (d1, d2), cplx), _rand(rng, (d2, d1), cplx)
+            Gt = np.einsum("ad,bc->abcd", A, B)  # G[o1,o2,i1,i2] = A[o1,i2] B[o2,i1]
+        else:
+            A, B = _rand(rng, (d1, d1), cplx), _rand(rng, (d2, d2), cplx)
+            Gt = np.einsum("ac,bd->abcd", A, B)
+        Gt = np.ascontiguousarray(Gt)
+        return (Gt.reshape(D, D) if form == "product" else Gt.copy()), Gt
     G = _rand(rng, (D, D), cplx) + 0.5 * np.eye(D)
     Gt = G.reshape(tuple(gdims) + tuple(gdims))
     return (G if form == "matrix" else Gt.copy()), Gt
@@ -412,7 +424,7 @@ def vector_modes(cx):
                         if cx.out_of_time():
                             cx.inconclusive.append("vector-gate-modes: time budget exhausted")
                             return
-                        form = ("matrix", "tensor")[d[0] % 2]
+                        form = ("matrix", "tensor", "product", "swapprod")[d[0] % 4] if ng == 2 else ("matrix", "tensor")[d[0] % 2]
                         how = ("plain", "plain", "dagger", "transpose")[d[1] % 4]
                         prop = ("default", False, True, "sites", "register")[d[2] % 5]
                         inplace = bool(d[3] % 2)
@@ -889,7 +901,8 @@ RAW_NETS = {
 @driver("C06", "raw-labels", chunks=3, timeout=300,
         bound="TensorNetwork.gate_inds on plain TensorNetwork objects (two / three tensors, a single tensor, labels "
               "that coincide with the internal names 'b', 'l0', 'r0', 'l1', 'r1' of the lazily split gate) with every contract "
-              "mode, 1..3 target labels in any order, transpose / dagger, stored exponent; gate_inds_with_tn with a two-tensor "
+              "mode, 1..3 target labels in any order (a single label also as a bare string), full-rank / product / swapped-product "
+              "gates, transpose / dagger, stored exponent; gate_inds_with_tn with a two-tensor "
               "gate network (targets present and absent); Tensor.gate (preserve_inds, transpose, rectangular matrices); "
               "tolerance 1e-9")
 def raw_labels(cx):
@@ -927,12 +940,13 @@ def raw_labels(cx):
                             d = [int(x) for x in sel.integers(0, 1 << 30, size=4)]
                             if not cx.mine():
                                 continue
-                            form = ("matrix", "tensor")[d[0] % 2]
+                            form = ("matrix", "tensor", "product", "swapprod")[d[0] % 4] if ng == 2 else ("matrix", "tensor")[d[0] % 2]
                             how = ("plain", "plain", "dagger", "transpose")[d[1] % 4]
                             inplace = bool(d[2] % 2)
+                            bare = ng == 1 and d[3] % 3 == 0  # a single label given as a plain string (documented)
                             G, Gt = rand_gate(rng, gdims, cplx, form)
                             params = dict(net=name, cplx=cplx, exponent=exponent, inds=list(inds), mode=mode, form=form, how=how,
-                                          inplace=inplace, v=v)
+                                          inplace=inplace, v=v, bare_str=bare)
                             holders = [k for k, (labels, _) in enumerate(spec) if set(labels) & set(inds)]
                             two_nb = False
                             if ng == 2 and len(holders) == 2:
@@ -942,7 +956,7 @@ def raw_labels(cx):
                                 or (ng >= 3 and mode in (False, True))
 
                             def thunk(tn=tn, G=G, Gt=Gt, inds=inds, mode=mode, how=how, inplace=inplace, axes=axes, ng=ng,
-                                      outer=outer, base=base, snap=snap):
+                                      outer=outer, base=base, snap=snap, bare=bare):
                                 target = tn.copy() if inplace else tn
                                 kw = dict(contract=mode)
                                 if how == "dagger":
@@ -951,7 +965,7 @@ def raw_labels(cx):
                                     kw["transpose"] = True
                                 if mode not in (False, True):
                                     kw["cutoff"] = 0.0
-                                arg = inds[0] if (ng == 1 and False) else list(inds)
+                                arg = inds[0] if bare else list(inds)
                                 after = target.gate_inds_(G, arg, **kw) if inplace else target.gate_inds(G, arg, **kw)
                                 if inplace and after is not target:
                                     return "the in-place spelling returned a different object"
